@@ -98,6 +98,8 @@ impl Group for C10Sim {
             // commitments, with the revocation as a separate message and in the old-protocol composite
             c("world h|HVH 0 g 0|HVH -1 g 0|HVH 0 g 1|HVH 0 g 1|HRV 0|HVH -1 g 1|HVH -1 g 2|HVHO 0 g 2|HVHO -1 g 2|HVHO 0 b 3|HVH 1 g 0|HRV 0|HRV 1"),
             c("world h|HRV 0|HVH 0 b 0|HVHO 0 g 0|HVHO 0 g 10|HVHO 0 g 9|HVHO -1 g 9|HVH 0 g 11|HVH 0 g 0|HRV 0|HRV 0"),
+            // counterparty commitments, revocations and the force-close signature through the handler's arms
+            c("world h|HVH 0 g 0|HSCP 0 0|HSCP 0 1|HCPR 0 g|HSCP 1 2|HSCP 0 9|HSCP 0 10|HCPR 0 b|HCPR 1 g|HSH 0|HSH 3|HVH 0 g 1|HSCP 0 2"),
             // the handler's composite requests: validation followed, in the same request, by the next point /
             // the activation (protocol with a separate revoke message) or by the revocation (old protocol)
             c("hvh 0 g 0|rv 0|hvh 1 g 1|hvh 0 g 1|hvh 0 g 0|hvho 0 g 2|hvho 1 g 0|hvh1o 0 g 10|hvh1 0 g 11|hvh1o 0 g 0"),
@@ -168,6 +170,12 @@ impl Group for C10Sim {
                     ops[i] = format!("{} {} {} {}", if rng.chance(1, 3) { "HVHO" } else { "HVH" }, t[1], t[2], t[3]);
                 } else if t[0] == "rv" && rng.chance(2, 3) {
                     ops[i] = format!("HRV {}", t[1]);
+                } else if t[0] == "scp" && t.len() == 3 && rng.chance(2, 3) {
+                    ops[i] = format!("HSCP {} {}", t[1], t[2]);
+                } else if t[0] == "cpr" && t.len() == 3 && rng.chance(2, 3) {
+                    ops[i] = format!("HCPR {} {}", t[1], t[2]);
+                } else if t[0] == "sh" && t.len() == 2 && rng.chance(2, 3) {
+                    ops[i] = format!("HSH {}", t[1]);
                 }
             }
             ops.insert(1, format!("HVH{} 0 g 0", if rng.chance(1, 4) { "O" } else { "" }));
